@@ -64,12 +64,24 @@ def alt_req(alt):
     return "L" + hexs(alt.encode())
 
 
-def program(set_id, branches, tier):
+def program(set_id, branches, tier, style="expr"):
     flat = [(bi, alt) for bi, br in enumerate(branches) for alt in br]
     # rust: table of (branch, src descriptor, literal as &str)
     lits = ",\n        ".join(f'({bi}usize, "{alt_req(alt)}", {alt_src(alt)})' for bi, alt in flat)
-    match_arms = "\n".join(
-        f"            {' | '.join(alt_src(a) for a in br)} => {bi}usize," for bi, br in enumerate(branches))
+    def arms_in_style(style):
+        # the macro accepts `pats => expr,` and `pats => { block }` (with or without a trailing comma);
+        # whatever the syntax, branches must be tried in the order listed
+        out = []
+        for bi, br in enumerate(branches):
+            pats_ = ' | '.join(alt_src(a) for a in br)
+            if style == "expr":
+                out.append(f"            {pats_} => {bi}usize,")
+            elif style == "block":
+                out.append(f"            {pats_} => {{ {bi}usize }}")
+            else:   # mixed: alternate, starting with an expression branch
+                out.append(f"            {pats_} => {bi}usize," if bi % 2 == 0 else f"            {pats_} => {{ {bi}usize }}")
+        return "\n".join(out)
+    match_arms = arms_in_style(style)
     pats = " | ".join(alt_src(alt) for _, alt in flat)
     maxu = 3 if tier == "quick" else 4
     src = r'''
@@ -170,15 +182,22 @@ def generate(ctx):
     tier = ctx["tier"]
     d = common.workdir("C18")
     jobs = []
+    SETS_ALL = list(SETS)
+    # the same sets again with block-bodied / mixed branch syntax where there are overlapping alternatives
     for sid, branches in SETS:
-        p = os.path.join(d, f"{sid}.rs")
-        open(p, "w").write(program(sid, branches, tier))
-        jobs.append((p, os.path.join(d, sid), "link"))
+        if sid in ("overlap_long_first", "overlap_short_first", "three_way", "multibyte_prefix", "empty_lit"):
+            SETS_ALL.append((sid + "@block", branches))
+            SETS_ALL.append((sid + "@mixed", branches))
+    for sid, branches in SETS_ALL:
+        p = os.path.join(d, f"{sid.replace('@', '_')}.rs")
+        style = sid.split("@")[1] if "@" in sid else "expr"
+        open(p, "w").write(program(sid, branches, tier, style))
+        jobs.append((p, os.path.join(d, sid.replace('@', '_')), "link"))
     res = common.compile_many(jobs)
     tsv = os.path.join(d, "c18.tsv")
     nprog = 0
     with open(tsv, "w") as out:
-        for (sid, branches), (rc, err), j in zip(SETS, res, jobs):
+        for (sid, branches), (rc, err), j in zip(SETS_ALL, res, jobs):
             flat = [(bi, alt) for bi, br in enumerate(branches) for alt in br]
             arms = ",".join(f"{bi}:{alt_req(alt)}:?" for bi, alt in flat)
             if rc != 0:
@@ -193,5 +212,5 @@ def generate(ctx):
             out.write(so)
             nprog += 1
     ctx["extra"]["programs"] = nprog
-    ctx["extra"]["literal_sets"] = [s for s, _ in SETS]
+    ctx["extra"]["literal_sets"] = [s for s, _ in SETS_ALL]
     return tsv
